@@ -22,9 +22,9 @@ import progs  # noqa: E402
 
 # the first program is built alone and warms the private llgo cache (runtime, sync, sync/atomic and the
 # other overlaid packages); reflect and fmt programs (minutes to build) are left to the thorough tier
-QUICK = [("sync", 4), ("plain", None), ("sync", None), ("skipstd", None), ("wide", 8), ("plain", 2),
-         ("plain", 3), ("plain", None)]
-THOROUGH_EXTRA = [("reflect", 4), ("fmt", None), ("sync", 8), ("wide", 7), ("skipstd", 5)] + [("plain", None)] * 12 + [("wide", None)] * 6
+QUICK = [("sync", 4), ("facade", None), ("sync", None), ("skipstd", None), ("wide", 8), ("plain", 2),
+         ("facade", None), ("plain", None)]
+THOROUGH_EXTRA = [("facade", None)] * 3 + [("reflect", 4), ("fmt", None), ("sync", 8), ("wide", 7), ("skipstd", 5)] + [("plain", None)] * 12 + [("wide", None)] * 6
 
 
 # ---------------------------------------------------------------- IR skeletons
@@ -301,6 +301,10 @@ def run(ck):
         facts = r["facts"]
         classes["mode:" + facts["mode"]] += 1
         classes["packages:%d" % len(facts["packages"])] += 1
+        for pk in facts["packages"]:
+            classes["kind:" + pk["kind"]] += 1
+            if pk["kind"] != "stateful" and pk["imports"]:
+                classes["kind:%s-with-imports" % pk["kind"]] += 1
         if r["rc_llgo"] != 0 or r["rc_go"] != 0:
             ck.correspondence_broken("program-build", {"i": r["i"], "llgo": r["log_llgo"][-1500:], "go": r["log_go"][-800:], "files": r["files"]})
             continue
